@@ -382,7 +382,8 @@ def check_property(prop, tier, seed0):
             accepted_total = 0
             for i in range(0, len(traces), chunk):
                 part = traces[i:i + chunk]
-                acc, out, st = tracecheck.validate(sname, part, workers=PAR, timeout=3000)
+                acc, out, st = tracecheck.validate(sname, part, workers=PAR, timeout=3000,
+                                                   cfg="MCM" if scen.get("mon_only") else "MCT")
                 if st.get("error") and not st.get("violated"):
                     log(st["error"])
                     raise Infra(f"TLC trace validation failed for {sname}")
